@@ -929,6 +929,30 @@ def sched_cases(jobs):
                     pts = [[a, [names[1], b]] for a in av for b in bv]
                 else:
                     pts = [[a, [names[1], b]] for a in range(1, total + 1) for b in range(1, totb + 1)]
+            elif sw == "sample3":
+                # three threads: sampled schedules - the first runs to a and hands over to the second, which runs to b and
+                # hands over to the third, which runs to c and hands back to the first (each then runs on when it gets the turn)
+                import random as _random
+
+                tot = {}
+                for nme in names:
+                    ov = fresh()
+                    _, cn, _, _, _ = buildrt.run_schedule(sc, ov, {nme: job["threads"][nme]}, [], job["granularity"])
+                    tot[nme] = cn[nme]
+                r3 = _random.Random(job.get("offset", 0) * 7919 + 3)
+                pts = []
+                for _ in range(limit or 50):
+                    order = list(names)
+                    r3.shuffle(order)
+                    first = names[0]
+                    rest = [x for x in order if x != first]
+                    a = r3.randint(1, tot[first])
+                    b = r3.randint(1, tot[rest[0]])
+                    c = r3.randint(1, tot[rest[1]])
+                    cand = [[first, a, rest[0]], [rest[0], b, rest[1]], [rest[1], c, first]]
+                    if cand not in pts:
+                        pts.append(cand)
+                limit = None
             elif sw == "sweep1":
                 pts = [[k] for k in range(1, total + 1)]
             elif sw == "sweep2":
@@ -946,7 +970,7 @@ def sched_cases(jobs):
                     steps.append({"op": "thread", "thread": nme, "call": job["threads"][nme], "obs": res[nme]})
                 for c in job.get("after", []):
                     steps.append({"op": "after", "call": c, "obs": sc.call(ov, c)})
-                out.append({"id": f"{job['id']}@{'-'.join(str(x if isinstance(x, int) else x[1]) for x in p)}", "world": job["world"], "schedule": p,
+                out.append({"id": f"{job['id']}@{'-'.join(str(x if isinstance(x, int) else (x[1] if len(x) == 2 else f'{x[0]}{x[1]}{x[2]}')) for x in p)}", "world": job["world"], "schedule": p,
                             "points_total": total, "steps": steps, "stuck": stuck,
                             "preempted_in": [t for t in trace if t[0] == names[0] and t[1] in [x for x in p if isinstance(x, int)]][:2]})
             sc.bw.cleanup()
